@@ -426,3 +426,54 @@ def wf_dragonbox_thresholds():
                           "const FC_PM_HALF_LOWER: i32 = %s;" % half))
     return facts, ["lexical-write-float::algorithm::DragonboxFloat::DIV_BY_5_THRESHOLD", "…::FC_PM_HALF_LOWER",
                    "…::compute_nearest_normal (endpoint integer test)"], _log_prelude(consts)
+
+
+@gen("pf-lemire-constants")
+def pf_lemire_constants():
+    """Derived constants of the Eisel-Lemire kernel must satisfy their defining inequalities (Lemire 2021, sec. 5-9)."""
+    fl = _read("lexical-parse-float/src/float.rs")
+    lm = _read("lexical-parse-float/src/lemire.rs")
+    facts = []
+    for ty, ms, emin_sub, emax in (("f32", 23, 149, 128), ("f64", 52, 1074, 1024)):
+        m = re.search(r'impl LemireFloat for %s \{(.*?)\n\}' % ty, fl, re.S)
+        if not m:
+            raise RuntimeError("lost anchor: impl LemireFloat for %s" % ty)
+        c = dict((k, int(v)) for k, v in re.findall(r'const (\w+): i32 = (-?\d+);', m.group(1)))
+        src = " ".join("%s=%d" % kv for kv in sorted(c.items()))
+        mx, mn = c["MAX_EXPONENT_ROUND_TO_EVEN"], c["MIN_EXPONENT_ROUND_TO_EVEN"]
+        # exact ties w * 10^q (q >= 0) need 5^q to fit next to the (ms+1)-bit significand: q <= max  <=>  5^q <= 2^(ms+2)
+        facts.append(("%s::MAX_EXPONENT_ROUND_TO_EVEN" % ty,
+                      "%d >= 0 && pw(5, %d) <= pw(2, %d) && pw(2, %d) < pw(5, %d)" % (mx, mx, ms + 2, ms + 2, mx + 1), src))
+        # exact ties w / 10^-q need 5^-q | w < 2^64 with a (ms+1)-bit quotient: -q <= -min  <=>  5^-q <= 2^(63-ms)
+        facts.append(("%s::MIN_EXPONENT_ROUND_TO_EVEN" % ty,
+                      "%d <= 0 && pw(5, %d) <= pw(2, %d) && pw(2, %d) < pw(5, %d)" % (mn, -mn, 63 - ms, 63 - ms, -mn + 1), src))
+        s_, l_ = c["SMALLEST_POWER_OF_TEN"], c["LARGEST_POWER_OF_TEN"]
+        # q < SMALLEST: (2^64 - 1) * 10^q is below half the least subnormal  => rounds to +0
+        facts.append(("%s::SMALLEST_POWER_OF_TEN" % ty,
+                      "%d < 0 && (pw(2, 64) - 1) * pw(2, %d) < pw(10, %d)" % (s_, emin_sub + 1, -(s_ - 1)), src))
+        # q > LARGEST: 1 * 10^q is beyond the largest finite value => infinity
+        facts.append(("%s::LARGEST_POWER_OF_TEN" % ty, "%d > 0 && pw(10, %d) >= pw(2, %d)" % (l_, l_ + 1, emax), src))
+        facts.append(("%s::MINIMUM_EXPONENT" % ty, "%d == -(%d)" % (c["MINIMUM_EXPONENT"], (1 << (7 if ty == "f32" else 10)) - 1), src))
+        if ty == "f64":
+            facts.append(("f64::power-table range", "%d >= -342 && %d <= 308" % (s_, l_), src))
+    # power(q) = floor(q * log2(10)) + 63 on the table range
+    m = re.search(r'const fn power\(q: i32\) -> i32 \{\s*\(q\.wrapping_mul\(([\d_]+) \+ ([\d_]+)\) >> (\d+)\) \+ (\d+)\s*\}', lm)
+    if not m:
+        raise RuntimeError("lost anchor: lemire::power")
+    mul = int(m.group(1).replace('_', '')) + int(m.group(2).replace('_', ''))
+    sh, add = int(m.group(3)), int(m.group(4))
+    for q in range(-342, 309):
+        k = "((%d * %d) / %d)" % (q, mul, 1 << sh)
+        if q >= 0:
+            fact = "%d == 63 && %s >= 0 && pw(2, %s as nat) <= pw(10, %d) && pw(10, %d) < pw(2, (%s + 1) as nat)" % (add, k, k, q, q, k)
+        else:
+            fact = "%d == 63 && %s < 0 && pw(10, %d) <= pw(2, (-%s) as nat) && pw(2, (-%s - 1) as nat) < pw(10, %d)" % (add, k, -q, k, k, -q)
+        facts.append(("lemire::power(%d)" % q, fact, m.group(0).replace("\n", " ")))
+    # safe window of the truncated 128-bit product
+    m = re.search(r'let inside_safe_exponent = \((-?\d+)\.\.=(-?\d+)\)\.contains\(&q\);', lm)
+    if not m:
+        raise RuntimeError("lost anchor: inside_safe_exponent window")
+    lo, hi = int(m.group(1)), int(m.group(2))
+    facts.append(("lemire::inside_safe_exponent window", "%d <= 0 && pw(5, %d) < pw(2, 64) && %d >= 0 && pw(5, %d) < pw(2, 128)" % (lo, -lo, hi, hi), m.group(0)))
+    return facts, ["lexical-parse-float::float::LemireFloat::{MIN,MAX}_EXPONENT_ROUND_TO_EVEN", "…::SMALLEST/LARGEST_POWER_OF_TEN",
+                   "…::MINIMUM_EXPONENT", "lexical-parse-float::lemire::power", "lexical-parse-float::lemire::compute_float (safe window)"], ""
